@@ -287,11 +287,21 @@ def order_instances(tier: str) -> list[dict]:
         if tier == "quick" and len(i["spec"]["subjects"]) + len(i["spec"]["objects"]) > 3 and i["spec"]["direction"] == "imported":
             continue
         out2.append(i)
-    # layer order: the same layers defined in two orders, object layers listed in two orders
-    layers = (("L0", "names", (nodes[1],)), ("L1", "names", (nodes[3],)), ("L2", "names", (nodes[4],)))
-    for verb, direction, exc in SHAPES:
-        d = "access" if direction == "import" else "accessed"
-        out2.append({"part": "order", "tree": "T5a", "naming": "adv", "what": "layers", "layerspec": LayerSpec(layers, verb, d, exc, "L0", ("L1", "L2")).as_json()})
+    # layer order: the same layers defined in several orders, object layers listed in both orders; all-named layers and
+    # object layers of MIXED kind (one given by a regex, one by name: which kind is listed last must not matter)
+    import re as _re
+
+    for tree in ("T4",) if tier == "quick" else ("T4", "T5a"):
+        tn = concrete(tree, "adv")
+        ll = [n for n in tn if "." in n and not any(m != n and m.startswith(n + ".") for m in tn)][:3]
+        layers = (("L0", "names", (ll[0],)), ("L1", "names", (ll[1],)), ("L2", "names", (ll[2],)))
+        defs = [layers]
+        for li in (1, 2):
+            defs.append(tuple((n, "regex", (_re.escape(p[0]) + "$",)) if idx == li else (n, k, p) for idx, (n, k, p) in enumerate(layers)))
+        for ld in defs:
+            for verb, direction, exc in SHAPES:
+                d = "access" if direction == "import" else "accessed"
+                out2.append({"part": "order", "tree": tree, "naming": "adv", "what": "layers", "layerspec": LayerSpec(ld, verb, d, exc, "L0", ("L1", "L2")).as_json()})
     return out2
 
 
@@ -313,7 +323,9 @@ def work_order(inst) -> dict:
             for operm in itertools.permutations(ls.objects):
                 l2 = LayerSpec(tuple(lperm), ls.verb, ls.direction, ls.exc, ls.subject, tuple(operm), ls.anything)
                 variants.append(([x[0] for x in lperm] + list(operm), lambda l2=l2: build_layer_rule(l2)))
-        variants = variants[:: 2 if len(variants) > 6 else 1]
+        if len(variants) > 6:
+            # half of the (definition order, object order) combinations, alternating the object order
+            variants = [v for i, v in enumerate(variants) if (i // 2 + i) % 2 == 0]
     summs = []
     for name, mk in variants:
         def fn(mk=mk):
